@@ -9,8 +9,8 @@ let kind_of = function "tx2" -> TxV2 | "prop2" -> PropV2 | "cfg2" -> CfgV2 | "tx
 let is_cfg k = k = "cfg2" || k = "cfg3"
 let is_tx k = k = "tx2" || k = "tx3"
 let log_of kind key = if kind = "tx3" then (if key = "k0" || key = "k1" then bytes_of_string "ta" else bytes_of_string "tb") else []
-let keys = [ "k0"; "k1"; "k2"; "k3" ]
-let keycode k = n_of_int (int_of_string (String.sub k 1 (String.length k - 1)))
+let keys = [ "k0"; "k1"; "k2"; "k3"; "kw" ]
+let keycode k = if k = "kw" then n_of_int 9 else n_of_int (int_of_string (String.sub k 1 (String.length k - 1)))
 let code_str = function COk -> "ok" | CInvalid -> "invalid" | CNotFound -> "notfound" | CExists -> "exists" | CConflict -> "conflict"
 let ios = int_of_string
 
